@@ -2,6 +2,19 @@
 from vlib import *
 import docgen
 from props.parse_common import corpus_files, SLOTS
+from props import c15loc
+
+# located deserialization errors with the span the error must carry (direct oracle, `c15d` line syntax): the offending value
+# is an ELEMENT of an array / a field of a struct variant, not the container around it
+LOCATED_FIXED = [
+    # Vec<Date> with a date-time element (F36: was located at the whole array)
+    ("loc S S(61:V(da)) " + "a = [1979-05-27, 1979-05-27T07:32:00Z]\n".encode().hex(), (17, 37)),
+    ("loc S S(61:V(ti)) " + "a = [ 07:32:00 ,\n 1979-05-27 ]\n".encode().hex(), (18, 28)),
+    ("loc S S(61:V(V(da))) " + "a = [[], [1979-05-27T07:32:00]]\n".encode().hex(), (10, 29)),
+    ("loc S S(61:V(i8)) " + "a = [1, 300]\n".encode().hex(), (8, 11)),
+    ("loc S S(61:T(i8,s)) " + "a = [1, 2]\n".encode().hex(), (8, 9)),
+    ("loc S S(61:V(S(78:b))) " + "[[a]]\nx = true\n[[a]]\nx = 1\n".encode().hex(), (25, 26)),
+]
 
 
 def spec_lc(data: bytes, a: int):
@@ -174,12 +187,35 @@ def run(ctx):
                     bad = f"without source text the error does not carry the key path: {o}"
         if bad:
             ctx.violation(f"{bad[:300]}", {"mode": "c15", "case": c, "text": t, "impl": o, "witness": c})
+    # ---- WHERE a deserialization error is located: model (Model/DeLocated.lean) = the three routes, plus direct oracles
+    extra_props(ctx, ["C15Located"])
+    lstats, ldis, lbroken = c15loc.run_located(ctx, tvh)
+    for name, fails in lbroken.items():
+        for l, d in fails[:5]:
+            wit = l
+            if name == "span-present" and c15loc.root_unlocated(l.split(" ")[2]):
+                wit = "class:F37 Date / Time as the root target: the shape error is raised after the deserializer has returned"
+            ctx.violation(f"located decode, oracle {name}: {d[:300]}", {"mode": "c15d", "case": l, "impl": d[:2000], "witness": wit})
+    if lstats.get("root-unlocated"):
+        ctx.violation("a deserialization error raised by the target type `Date` / `Time` itself, as the root type, carries neither span nor key although the source text is available",
+                      {"mode": "c15d", "count": lstats["root-unlocated"], "witness": "class:F37 Date / Time as the root target: the shape error is raised after the deserializer has returned"})
+    if lstats.get("keys-omit-a-table-key"):
+        ctx.violation("the key path of a deserialization error below an enum variant omits the variant's key (and the index keys of a tuple variant read from a table)",
+                      {"mode": "c15d", "count": lstats["keys-omit-a-table-key"], "witness": "class:F38 enum variant key missing from the key path of the error"})
+    rc, fout, _ = run_lines(tvh, "c15d", [l for l, _ in LOCATED_FIXED])
+    for (l, want), o in zip(LOCATED_FIXED, fout + ["CRASH"] * len(LOCATED_FIXED)):
+        r = c15loc.parse_routes(o) if not o.startswith(("CRASH", "PANIC", "parse-err")) else None
+        got = r["td"][1] if r and r["td"][0] == "err" else None
+        if got != want or (r and r["ed"] != r["td"]):
+            ctx.violation(f"located decode `{bytes.fromhex(l.split(' ')[3]).decode()[:60]!r}` into {l.split(' ')[2]}: the error must carry the span {want} of the offending element, got {o[:200]}",
+                          {"mode": "c15d", "case": l, "impl": o[:600], "witness": l})
+    dcases_n = len(dcases) + lstats.get("cases", 0) + len(LOCATED_FIXED)
     if ctx.broken and not ctx.violations:
         for n, d in ctx.broken:
-            ctx.violation(f"obligation no longer checks: {n}", {"unchecked": n, "detail": d[:1500], "searched": f"{len(ecases)} texts, {len(dcases)} typed decodes"}, concrete=False)
+            ctx.violation(f"obligation no longer checks: {n}", {"unchecked": n, "detail": d[:1500], "searched": f"{len(ecases)} texts, {dcases_n} typed decodes"}, concrete=False)
     ctx.cov.update({
-        "evaluations": len(ecases) + len(dcases), "distinct_nontrivial": len(nontriv),
-        "rule": "rejected texts: toml-test files, byte mutations of generated and corpus documents, truncations at every byte, hand-made errors preceded by multi-byte characters / at end of input with and without final newline / after BOM, a 2-byte character followed by each ASCII byte in 12 slots; typed decodes: generated valid documents x random leaf path x mismatching target kind through toml::de::Deserializer, toml_edit::de::Deserializer::parse and from a DocumentMut (no source). non-trivial = a non-ASCII byte at or before the error position, or a typed decode that failed",
+        "evaluations": len(ecases) + dcases_n, "located_decodes": lstats, "distinct_nontrivial": len(nontriv),
+        "rule": "rejected texts: toml-test files, byte mutations of generated and corpus documents, truncations at every byte, hand-made errors preceded by multi-byte characters / at end of input with and without final newline / after BOM, a 2-byte character followed by each ASCII byte in 12 slots; typed decodes: generated valid documents x random leaf path x mismatching target kind through toml::de::Deserializer, toml_edit::de::Deserializer::parse and from a DocumentMut (no source); located decodes (c15d): well-typed (type, document) pairs of the C13 type grammar with one change (leaf type, required field, variant, tuple length, date-time shape) under up to three wrappers, all three routes against Model/DeLocated.lean and against direct oracles (span present, in the text, a key or value node of the document with the keys along its path). non-trivial = a non-ASCII byte at or before the error position, or a typed decode that failed",
         "samples": [ecases[50][:120], mcases[10][:120] if mcases else "", dcases[3][:160] if dcases else ""],
         "rejected_texts": rejected, "known_finding_F13_empty_messages": empty_msgs, "typed_decode_errors": derrs, "traces_validated_against_impl": len(mcases), "disagreements": ndis,
     })
